@@ -954,11 +954,22 @@ func c16ClientDelegationHistory(c *mon.Ctx, st *scriptedTransport, ds *dnsScript
 	type hit struct{ server, host string }
 	var mu sync.Mutex
 	var hits []hit
+	var snis []string
 	mk := func(label string) *httptest.Server {
 		srv := httptest.NewUnstartedServer(http.HandlerFunc(func(w http.ResponseWriter, q *http.Request) {
 			mu.Lock()
 			hits = append(hits, hit{label, q.Host})
+			sni := ""
+			if q.TLS != nil {
+				sni = q.TLS.ServerName
+			}
+			snis = append(snis, sni)
 			mu.Unlock()
+			if q.URL.Path == "/verif/moved" {
+				w.Header().Set("Location", "/_matrix/federation/v1/version")
+				w.WriteHeader(http.StatusTemporaryRedirect)
+				return
+			}
 			w.Header().Set("Content-Type", "application/json")
 			_, _ = w.Write([]byte(`{"server":{"name":"` + label + `","version":"1"}}`))
 		}))
@@ -1075,7 +1086,93 @@ func c16ClientDelegationHistory(c *mon.Ctx, st *scriptedTransport, ds *dnsScript
 			}
 		}
 	})
+	// the same through a client without an overall timeout (callers that bound their requests by the context alone):
+	// net/http hands such a client's own request object to the transport, so a transport that writes the connection
+	// target into it leaves the caller's request - and every redirect worked out from it - pointing at the target
+	// instead of the server name (ninth audit round, net #2)
+	c.Case("client:request-object-sent-twice:no-client-timeout", nil, func() {
+		c.Nontrivial("client-delegation|request-reused|timeout-0")
+		cl := fclient.NewClient(fclient.WithSkipVerify(true), fclient.WithWellKnownSRVLookups(true), fclient.WithTimeout(0))
+		req, err := http.NewRequest("GET", "matrix://a.hist.test/_matrix/federation/v1/version", nil)
+		if err != nil {
+			return
+		}
+		urlBefore, hostBefore := req.URL.String(), req.Host
+		for round := 0; round < 2; round++ {
+			mu.Lock()
+			hits, snis = nil, nil
+			mu.Unlock()
+			ctx, cancel := context.WithTimeout(context.Background(), 5*time.Second)
+			resp, err := cl.DoHTTPRequest(ctx, req)
+			if resp != nil {
+				resp.Body.Close()
+			}
+			cancel()
+			mu.Lock()
+			got := append([]hit{}, hits...)
+			mu.Unlock()
+			c.Count("client_delegation_history_requests")
+			if u := req.URL.String(); u != urlBefore || req.Host != hostBefore {
+				c.Failf("client:callers-request-rewritten:no-client-timeout", "DoHTTPRequest of a client built WithTimeout(0) changed the request it was given from URL %q Host %q to URL %q Host %q", urlBefore, hostBefore, u, req.Host)
+				return
+			}
+			if err != nil || len(got) != 1 || got[0] != want["a.hist.test"] {
+				c.Failf("client-delegation-history:wrong-target:request-object-sent-twice", "sending %d of one request object for a.hist.test (client without timeout) gave err=%v and reached %v; expected server B with Host b.hist.test", round+1, err, got)
+				return
+			}
+		}
+	})
+	// a redirect to another path of the same server name: the second request is a request for that server name too,
+	// so it reaches the same target with the same Host header and TLS server name - with and without a client timeout
+	for _, timeout := range []time.Duration{5 * time.Second, 0} {
+		for _, name := range []string{"a.hist.test", "b.hist.test"} {
+			c.Case("client:redirect-within-a-server-name", map[string]any{"name": name, "client_timeout": timeout.String()}, func() {
+				c.Nontrivial(fmt.Sprintf("client-delegation|redirect|%s|%v", name, timeout))
+				cl := fclient.NewClient(fclient.WithSkipVerify(true), fclient.WithWellKnownSRVLookups(true), fclient.WithTimeout(timeout))
+				req, err := http.NewRequest("GET", "matrix://"+name+"/verif/moved", nil)
+				if err != nil {
+					return
+				}
+				mu.Lock()
+				hits, snis = nil, nil
+				mu.Unlock()
+				ctx, cancel := context.WithTimeout(context.Background(), 5*time.Second)
+				resp, err := cl.DoHTTPRequest(ctx, req)
+				if resp != nil {
+					resp.Body.Close()
+				}
+				cancel()
+				mu.Lock()
+				got := append([]hit{}, hits...)
+				gotSNI := append([]string{}, snis...)
+				mu.Unlock()
+				c.Count("client_redirects_followed")
+				if err != nil && len(got) < 2 {
+					// a client is free not to follow redirects; then there is nothing to compare
+					c.Count("client_redirect_not_followed")
+					return
+				}
+				if len(got) < 2 {
+					c.Count("client_redirect_not_followed")
+					return
+				}
+				w := want[name]
+				wantSNI, _, _ := net.SplitHostPort(w.host)
+				if wantSNI == "" {
+					wantSNI = w.host
+				}
+				for i := range got {
+					sniOK := gotSNI[i] == wantSNI || (net.ParseIP(wantSNI) != nil && gotSNI[i] == "")
+					if got[i] != w || !sniOK {
+						c.Failf("client:redirect-within-a-server-name:wrong-target", "request %d of a redirected request for %s (client timeout %v) reached server %s with Host %q and TLS name %q; that name resolves to server %s with Host %q and TLS name %q", i+1, name, timeout, got[i].server, got[i].host, gotSNI[i], w.server, w.host, wantSNI)
+						return
+					}
+				}
+			})
+		}
+	}
 	c.Floor("client_delegation_history_requests", 10)
+	c.Floor("client_redirects_followed", 4)
 }
 
 // c16ClientSequences sends requests for several server names that share a host through ONE client that resolves and
